@@ -39,7 +39,7 @@ use kanidmd_lib::credential::totp::{Totp, TotpAlgo, TotpDigits};
 use kanidmd_lib::entry::{Entry, EntryInit, EntryNew};
 use kanidmd_lib::filter::{Filter, FC};
 use kanidmd_lib::prelude::*;
-use kanidmd_lib::schema::Schema;
+use kanidmd_lib::schema::{Schema, SchemaTransaction};
 use kanidmd_lib::value::{ApiToken, ApiTokenScope, AuthType, CredentialType, Session, SessionExtMetadata, SessionScope, SessionState};
 use kanidmd_lib::verif_hooks::{c01 as hk01, c12 as hk12, c13 as hk13, c48 as hk};
 use serde_json::{json, Value as J};
@@ -144,6 +144,10 @@ enum Op {
     BDomain(u64),
     /// a user group whose name is the name of an entry that only the target level defines
     Clash,
+    /// kind index (0 person, 1 group, 2 service account, 3 OAuth2 client): an entry of that kind carrying EVERY
+    /// optional (`may` / `systemmay`) attribute its classes allow in the schema in force at the previous level
+    /// for which a value can be built (legacy OAuth2 key attributes included)
+    Full(u64),
 }
 
 impl Op {
@@ -168,6 +172,7 @@ impl Op {
             Op::BAdminPw(s) => format!("badminpw {s}"),
             Op::BDomain(s) => format!("bdomain {s}"),
             Op::Clash => "clash".into(),
+            Op::Full(k) => format!("full {k}"),
         }
     }
     fn parse(s: &str) -> Option<Op> {
@@ -193,6 +198,7 @@ impl Op {
             "badminpw" => Op::BAdminPw(n(1)?),
             "bdomain" => Op::BDomain(n(1)?),
             "clash" => Op::Clash,
+            "full" => Op::Full(n(1)?),
             _ => return None,
         })
     }
@@ -303,6 +309,10 @@ fn gen_case(r: &mut Rng, idx: u64, budget: u64) -> Case {
             Op::BDomain(r.next() % 1000)
         };
         ops.push(op);
+    }
+    // one entry per kind that uses every optional attribute the previous level's schema allows
+    for k in 0..4 {
+        ops.push(Op::Full(k));
     }
     // the name of the one entry only the target level defines: a boundary the generator visits rarely
     // (and often when a failing input is being searched for)
@@ -642,6 +652,9 @@ struct Made {
 
 fn apply_op(ctx: &mut Ctx, srv: &Srv, made: &mut Made, op: &Op, ct: Duration) -> Result<(), String> {
     let e = |x: OperationError| format!("{x:?}");
+    if let Op::Full(k) = op {
+        return apply_full(ctx, srv, made, *k % 4, ct);
+    }
     let mut w = ctx.rt.block_on(srv.qs.write(ct)).map_err(e)?;
     let live: Vec<u64> = made.kind.keys().filter(|i| !made.deleted.contains(i)).cloned().collect();
     let groups: Vec<u64> = made.kind.iter().filter(|(i, k)| **k == 'g' && !made.deleted.contains(i)).map(|(i, _)| *i).collect();
@@ -741,6 +754,7 @@ fn apply_op(ctx: &mut Ctx, srv: &Srv, made: &mut Made, op: &Op, ct: Duration) ->
         Op::BDomain(s) => {
             w.internal_modify_uuid(UUID_DOMAIN_INFO, &ModifyList::new_purge_and_set(Attribute::DomainDisplayName, Value::new_utf8s(&format!("Domain {s}")))).map_err(e)?;
         }
+        Op::Full(_) => {}
         Op::Clash => {
             let mut g: EntryNewT = Entry::new();
             g.add_ava(Attribute::Class, EntryClass::Object.to_value());
@@ -759,6 +773,215 @@ fn apply_op(ctx: &mut Ctx, srv: &Srv, made: &mut Made, op: &Op, ct: Duration) ->
         made.builtin_added.insert(a);
     }
     Ok(())
+}
+
+// ------------------------------------------------------------------------------------------------
+// the schema in force, as plain data; entries that use every optional attribute; conformance; writability
+// ------------------------------------------------------------------------------------------------
+
+#[derive(Clone, Debug, Default)]
+struct SchemaD {
+    /// attribute -> (syntax, multivalue, phantom)
+    attrs: BTreeMap<String, (String, bool, bool)>,
+    /// class -> [systemmust, must, systemmay, may, systemsupplements, supplements, systemexcludes, excludes]
+    classes: BTreeMap<String, [Vec<String>; 8]>,
+}
+
+fn dump_schema(rt: &tokio::runtime::Runtime, qs: &QueryServer) -> Result<SchemaD, String> {
+    let r = rt.block_on(qs.read()).map_err(|e| format!("read:{e:?}"))?;
+    let s = r.get_schema();
+    let mut d = SchemaD::default();
+    for (n, a) in s.get_attributes().iter() {
+        d.attrs.insert(n.as_str().to_string(), (format!("{:?}", a.syntax), a.multivalue, a.phantom));
+    }
+    for (n, c) in s.get_classes().iter() {
+        let av = |l: &Vec<Attribute>| l.iter().map(|a| a.as_str().to_string()).collect::<Vec<_>>();
+        let cv = |l: &Vec<AttrString>| l.iter().map(|a| a.to_string()).collect::<Vec<_>>();
+        d.classes.insert(n.to_string(), [av(&c.systemmust), av(&c.must), av(&c.systemmay), av(&c.may), cv(&c.systemsupplements), cv(&c.supplements), cv(&c.systemexcludes), cv(&c.excludes)]);
+    }
+    Ok(d)
+}
+
+/// Independent conformance check (from the statement "every stored entry conforms to the schema in force"):
+/// (entry, rule broken) for every live / recycled entry of the dump.  Tombstones and recycled conflict entries
+/// are exempt; a recycled entry need not carry the required attributes.
+fn conformance(s: &SchemaD, snap: &Snap) -> BTreeSet<(Uuid, String)> {
+    let mut out = BTreeSet::new();
+    for (uuid, e) in snap {
+        if e.state == 2 {
+            continue;
+        }
+        let Some(cls) = e.vals.get("class") else {
+            out.insert((*uuid, "no-class".to_string()));
+            continue;
+        };
+        let recycled = cls.contains("recycled");
+        if cls.contains("conflict") && recycled {
+            continue;
+        }
+        let extensible = cls.contains("extensibleobject");
+        let mut defs = vec![];
+        for c in cls {
+            match s.classes.get(c) {
+                Some(d) => defs.push(d),
+                None => {
+                    out.insert((*uuid, format!("unknown-class:{c}")));
+                }
+            }
+        }
+        let supp: Vec<&String> = defs.iter().flat_map(|d| d[4].iter().chain(d[5].iter())).collect();
+        if !supp.is_empty() && !supp.iter().any(|x| cls.contains(*x)) {
+            out.insert((*uuid, "supplements".to_string()));
+        }
+        for x in defs.iter().flat_map(|d| d[6].iter().chain(d[7].iter())) {
+            if cls.contains(x) {
+                out.insert((*uuid, format!("excludes:{x}")));
+            }
+        }
+        if !recycled {
+            for a in defs.iter().flat_map(|d| d[0].iter().chain(d[1].iter())) {
+                if !e.vals.contains_key(a) {
+                    out.insert((*uuid, format!("required-missing:{a}")));
+                }
+            }
+        }
+        let allowed: BTreeSet<&String> = defs.iter().flat_map(|d| d[0].iter().chain(d[1].iter()).chain(d[2].iter()).chain(d[3].iter())).collect();
+        for (a, vs) in &e.vals {
+            let Some((_, multi, phantom)) = s.attrs.get(a) else {
+                out.insert((*uuid, format!("undefined-attribute:{a}")));
+                continue;
+            };
+            if extensible {
+                if *phantom {
+                    out.insert((*uuid, format!("phantom:{a}")));
+                }
+            } else if !allowed.contains(a) {
+                out.insert((*uuid, format!("not-allowed:{a}")));
+            }
+            if !*multi && vs.len() > 1 {
+                out.insert((*uuid, format!("multi-on-single:{a}")));
+            }
+        }
+    }
+    out
+}
+
+/// A value of the attribute's syntax, where one can be built from plain data.
+fn full_value(attr: &str, syntax: &str, k: u64, ct: Duration) -> Option<Value> {
+    let odt = OffsetDateTime::UNIX_EPOCH + ct;
+    Some(match syntax {
+        "Utf8String" => Value::new_utf8s(&format!("full {attr} {k}")),
+        "Utf8StringInsensitive" => Value::new_iutf8(&format!("full{k}")),
+        "Utf8StringIname" => Value::new_iname(&format!("c48full{k}x{}", attr.len())),
+        "Boolean" => Value::new_bool(true),
+        "Uint32" => Value::new_uint32(3600 + k as u32),
+        "Uuid" => Value::Uuid(u(960 + k)),
+        "ReferenceUuid" => Value::Refer(UUID_IDM_ADMINS),
+        "SecretUtf8String" => Value::new_secret_str("legacy token key material"),
+        "PrivateBinary" => Value::new_privatebinary(&[0x30, 0x82, 1, 2, 3, 4, k as u8]),
+        "Url" => Value::new_url_s(&format!("https://full{k}.example.com/{attr}"))?,
+        "OauthScope" => Value::new_oauthscope("read")?,
+        "OauthScopeMap" => Value::new_oauthscopemap(UUID_IDM_ALL_PERSONS, ["openid".to_string()].into_iter().collect())?,
+        "OauthClaimMap" => Value::new_oauthclaimmap("team".into(), UUID_IDM_ALL_PERSONS, ["blue".to_string()].into_iter().collect())?,
+        "EmailAddress" => Value::EmailAddress(format!("c48full{k}@example.com"), true),
+        "DateTime" => Value::new_datetime_epoch(ct + Duration::from_secs(86400 * 300)),
+        "SshKey" => Value::new_sshkey_str("full", SSH_KEYS[0]).ok()?,
+        "CredentialType" => Value::CredentialType(CredentialType::Mfa),
+        "Credential" => {
+            let (_k, h, _c) = PW_VECTORS[0];
+            Value::Cred("primary".into(), hk12::cred_from_password(Password::try_from(h).ok()?, false, odt))
+        }
+        "Session" => Value::Session(
+            u(970 + k),
+            Session {
+                label: "full".into(),
+                state: SessionState::NeverExpires,
+                issued_at: odt,
+                issued_by: IdentityId::User(u(950 + k)),
+                cred_id: u(975 + k),
+                scope: SessionScope::ReadOnly,
+                type_: AuthType::Password,
+                ext_metadata: SessionExtMetadata::None,
+            },
+        ),
+        "ApiToken" => Value::ApiToken(u(980 + k), ApiToken { label: "full".into(), expiry: None, issued_at: odt, issued_by: IdentityId::User(u(950 + k)), scope: ApiTokenScope::ReadOnly }),
+        _ => return None,
+    })
+}
+
+const FULL_KINDS: [char; 4] = ['p', 'g', 's', 'o'];
+
+/// Create entry `950 + k`: the kind's usual entry plus every optional attribute its classes allow in the schema
+/// in force (greedy: an attribute the server refuses together with the ones already taken is left out; the
+/// trial transactions are dropped without commit).
+fn apply_full(ctx: &mut Ctx, srv: &Srv, made: &mut Made, k: u64, ct: Duration) -> Result<(), String> {
+    let i = 950 + k;
+    let kind = FULL_KINDS[k as usize];
+    let mut cur = match kind {
+        'p' => person_entry(i, 7, ct),
+        'g' => group_entry(i, 7, &[]),
+        's' => svc_entry(i, 7, ct),
+        _ => oauth2_entry(i, 7, &[]),
+    };
+    let sd = dump_schema(&ctx.rt, &srv.qs)?;
+    let cls: Vec<String> = cur.get_ava_set(Attribute::Class).map(|v| v.to_proto_string_clone_iter().collect()).unwrap_or_default();
+    let mut optional: BTreeSet<String> = BTreeSet::new();
+    for c in &cls {
+        if let Some(d) = sd.classes.get(c) {
+            optional.extend(d[2].iter().chain(d[3].iter()).cloned());
+        }
+    }
+    for a in optional {
+        if is_derived(&a) || cur.attribute_pres(Attribute::from(a.as_str())) {
+            continue;
+        }
+        let Some((syntax, _, phantom)) = sd.attrs.get(&a).cloned() else { continue };
+        let Some(v) = (if phantom { None } else { full_value(&a, &syntax, k, ct) }) else {
+            ctx.rep.count(&format!("full-no-value:{kind}:{a}"));
+            continue;
+        };
+        let mut trial = cur.clone();
+        trial.add_ava(Attribute::from(a.as_str()), v);
+        let ok = {
+            let mut w = ctx.rt.block_on(srv.qs.write(ct)).map_err(|e| format!("{e:?}"))?;
+            w.internal_create(vec![trial.clone()]).is_ok()
+        };
+        if ok {
+            cur = trial;
+            ctx.rep.count(&format!("full-attr:{kind}:{a}"));
+        } else {
+            ctx.rep.count(&format!("full-refused:{kind}:{a}"));
+        }
+    }
+    let mut w = ctx.rt.block_on(srv.qs.write(ct)).map_err(|e| format!("{e:?}"))?;
+    w.internal_create(vec![cur]).map_err(|e| format!("{e:?}"))?;
+    w.commit().map_err(|e| format!("{e:?}"))?;
+    made.kind.insert(i, kind);
+    Ok(())
+}
+
+/// A harmless modification of every live user entry (display name of accounts, description of the others), in a
+/// transaction that is dropped without commit: uuid -> the refusal, for the entries the server refuses to write.
+fn probe_writable(rt: &tokio::runtime::Runtime, qs: &QueryServer, made: &Made, snap: &Snap, ct: Duration) -> BTreeMap<Uuid, String> {
+    let mut out = BTreeMap::new();
+    for (i, kind) in &made.kind {
+        let uuid = u(*i);
+        if snap.get(&uuid).map(|e| e.state) != Some(0) {
+            continue;
+        }
+        let ml = match kind {
+            'p' | 's' | 'o' => ModifyList::new_purge_and_set(Attribute::DisplayName, Value::new_utf8s("c48 writability probe")),
+            _ => ModifyList::new_purge_and_set(Attribute::Description, Value::new_utf8s("c48 writability probe")),
+        };
+        let res: Result<(), OperationError> = (|| {
+            let mut w = rt.block_on(qs.write(ct))?;
+            w.internal_modify_uuid(uuid, &ml)
+        })();
+        if let Err(e) = res {
+            out.insert(uuid, format!("{e:?}"));
+        }
+    }
+    out
 }
 
 /// The definitions of the target level as plain data: (phase, uuid, attribute -> proto values, Attribute keys).
@@ -1308,6 +1531,12 @@ fn run_case_inner(ctx: &mut Ctx, case: &Case, defs: &[Def], r: &mut Rng) -> Resu
         return Err("database is not at the previous level after the population".into());
     }
     verify_all(ctx, case, &srv, "before");
+    // what the entries break / which entries refuse a write BEFORE the upgrade is not the upgrade's
+    let nonconf_before = conformance(&dump_schema(&ctx.rt, &srv.qs)?, &before);
+    let unwritable_before = probe_writable(&ctx.rt, &srv.qs, &made, &before, ct + Duration::from_secs(1));
+    if !nonconf_before.is_empty() || !unwritable_before.is_empty() {
+        ctx.rep.count("nonconforming-or-unwritable-before-upgrade");
+    }
 
     // ---- a jump past the target level is refused and changes nothing
     if case.jump_first {
@@ -1386,6 +1615,34 @@ fn run_case_inner(ctx: &mut Ctx, case: &Case, defs: &[Def], r: &mut Rng) -> Resu
     }
     oracle(ctx, case, &made, &before, &after, defs);
     verify_all(ctx, case, &srv, "after");
+    // ---- every stored entry conforms to the schema in force after the upgrade; every user entry is writable
+    {
+        let sd = dump_schema(&ctx.rt, &srv.qs)?;
+        let bad: Vec<(Uuid, String)> = conformance(&sd, &after).into_iter().filter(|x| !nonconf_before.contains(x)).collect();
+        ctx.rep.count("conformance-after-upgrade-checked");
+        for (uuid, rule) in bad.iter().take(4) {
+            let e = after.get(uuid);
+            ctx.oracle_fail(
+                "c48-entry-violates-schema-after-upgrade",
+                case,
+                json!({"uuid": uuid.to_string(), "rule": rule, "name": e.and_then(|e| e.vals.get("name")), "class": e.and_then(|e| e.vals.get("class")), "user_entry": made.kind.keys().any(|i| u(*i) == *uuid)}),
+                "every stored live / recycled entry conforms to the schema in force after the upgrade".into(),
+                format!("entry {uuid} (valid before the upgrade) breaks the post-upgrade schema: {rule}"),
+            );
+        }
+        let unw = probe_writable(&ctx.rt, &srv.qs, &made, &after, ct + Duration::from_secs(1));
+        ctx.rep.count("writability-after-upgrade-checked");
+        for (uuid, err) in unw.iter().filter(|(x, _)| !unwritable_before.contains_key(*x)).take(4) {
+            let e = after.get(uuid);
+            ctx.oracle_fail(
+                "c48-entry-unwritable-after-upgrade",
+                case,
+                json!({"uuid": uuid.to_string(), "name": e.and_then(|e| e.vals.get("name")), "class": e.and_then(|e| e.vals.get("class")), "attrs": e.map(|e| e.vals.keys().cloned().collect::<Vec<_>>())}),
+                "a harmless modify (display name / description) of a pre-existing user entry succeeds after the upgrade as it did before".into(),
+                err.clone(),
+            );
+        }
+    }
     correspond(ctx, case, &srv, &before, &after, defs);
     correspond_modlist(ctx, case, &srv, defs, r);
     if ctx.explore {
@@ -1712,7 +1969,7 @@ fn main() {
                 ctx.oracle_failed = false;
             }
             if ctx.oracle_failed && !before_fail {
-                let first_class = ctx.rep.failures.iter().find(|f| f.kind == "impl-vs-oracle").map(|f| f.class.clone()).unwrap_or_default();
+                let first_class = ctx.rep.failures.iter().find(|f| f.kind == "impl-vs-oracle" && f.class != RECOGNISED).map(|f| f.class.clone()).unwrap_or_default();
                 let ops = case.ops.clone();
                 let mut budget = 24;
                 let small = shrink_list(ops, |cand| {
